@@ -314,7 +314,7 @@ def run(tier, replay=None):
     rep.add_tlc(g)
     if g["violated"] or not cover:
         raise vlib.ToolError("cover generator failed: %s" % (g["violated"] or "no output"))
-    n_walks = 30000 if thorough else 2500
+    n_walks = 30000 if thorough else 1800
     for valid in (1, 2, 3, 4):
         gw = vlib.tlc("H2Conn", write_cfg(wd, "gen_walk.cfg", dict(SMALL, ping=1000), depth=9, valid=valid, dev=devs, emit="walk",
                                           checks="INVARIANTS EmitState"),
@@ -402,8 +402,10 @@ def run(tier, replay=None):
     rep.extra["storm_events"] = ev
 
     rep.cov["exhaustive"] = False
-    rep.cov["rule"] = ("distinct_nontrivial = distinct (frame, predicted reaction, admissible set) combinations of the frame "
-                       "tables of all %d states reachable by <= 3 valid frames, each replayed on a live connection at least "
+    rep.cov["rule"] = ("distinct_nontrivial = distinct (frame, predicted reaction, admissible set, class of the frame's stream id: "
+                       "state / above or below the watermarks / reset by sozu) combinations of the frame "
+                       "tables of all %d states reachable by <= 4 steps that are valid frames or the first stream error sozu "
+                       "answers (refusal, reset), each replayed on a live connection at least "
                        "twice; plus seeded (state, frame) pairs, TLC random walks and recorded storms; the flow-control "
                        "generator adds the ledger class of the windows the frame meets and the response bytes it frees to the "
                        "combination (%d states reached by valid prefixes over the flow-control alphabet)" % (len(cover), len(wcover)))
